@@ -241,5 +241,33 @@ theorem as_str_eq (W P N : Nat) (v : ByteArray) (hv : v.size = N) :
   rw [hv] at h ⊢
   simp [h]
 
+/-- `Display::fmt` writes `from_utf8_lossy` of the text before the first NUL (`lossy` stands for the standard
+    library's `String::from_utf8_lossy`, whose behaviour is a parameter). It never fails on a value of `N` bytes. -/
+theorem fmt_eq (W P N : Nat) (lossy : ByteArray → ByteArray) (v : ByteArray) (hv : v.size = N) :
+    fmt W P N lossy v = some (lossy (PodStr.text v)) := by
+  unfold fmt PodStr.text
+  have h := (PodStr.text_spec v).1
+  unfold PodStr.endIndex at h ⊢
+  rw [hv] at h ⊢
+  simp [h]
+
+/-- `as_str_unchecked`: the text before the first NUL, whatever it holds. -/
+theorem as_str_unchecked_eq (W P N : Nat) (v : ByteArray) (hv : v.size = N) :
+    as_str_unchecked W P N v = some (PodStr.text v) := by
+  unfold as_str_unchecked PodStr.text
+  have h := (PodStr.text_spec v).1
+  unfold PodStr.endIndex at h ⊢
+  rw [hv] at h ⊢
+  simp [h]
+
+theorem default_value_eq (W P N : Nat) : default_value W P N = some (zerosBA N) := rfl
+
 end GenS
+
+namespace GenP
+/-- `Deref`, `DerefMut` and `as_str` of a prefix string hand out the payload bytes themselves (and `DerefMut` leaves
+    them as they are). -/
+theorem deref_eq (W P N : Nat) (v : ByteArray) :
+    deref W P N v = some v ∧ as_str W P N v = some v ∧ deref_mut W P N v = some (v, v) := ⟨rfl, rfl, rfl⟩
+end GenP
 end Stevia
